@@ -19,8 +19,10 @@ def run(ctx):
         "2^53-1 and non-integer numbers are not exercised",
         "every event has a string `type` and an object `content` (the specification does not say what redaction "
         "does to anything else)",
-        "where the specification is silent nothing is demanded: a third_party_invite object without `signed` may be "
-        "dropped or kept as {} (room version 11 algorithm)",
+        "third_party_invite (room version 11 algorithm): what is listed is `signed` inside it, so an object without "
+        "`signed` ({} or only other keys) and a non-object are removed altogether, no `third_party_invite: {}` is left "
+        "(strict reading of 'keeps exactly ... removes everything else'; the library agrees, some other "
+        "implementations leave {})",
         "signatures: real ed25519 keys, events signed with PDU.Sign by the sender's server (two key IDs) and by a "
         "second server; "
         "the signature scheme is assumed unforgeable",
@@ -79,7 +81,7 @@ def record_and_validate(ctx, n):
             raise MachineryError("no expectation emitted for trace line %d" % lineno)
         probe = {"fam": "probe", "ver": rec["ver"], "algo": exp["algo"], "type": rec["type"], "api": rec["api"],
                  "raw": rec["raw"], "top": {}, "con": {}, "tpi": {}, "tpiobj": rec["tpiobj"],
-                 "ktop": exp["ktop"], "kcon": exp["kcon"], "ktpi": exp["ktpi"], "free": exp["free"]}
+                 "ktop": exp["ktop"], "kcon": exp["kcon"], "ktpi": exp["ktpi"]}
         r0 = _fresh(ctx, probe)
         if r0 is None or r0.get("ok"):
             raise MachineryError("recorded result of trace line %d did not reproduce in a fresh process" % lineno)
